@@ -69,6 +69,7 @@ func (e *Embed) GenerateOutput(textOnly bool) string {
 	tagName := dom.TagName(e.Element)
 	if tagName == "blockquote" || tagName == "iframe" {
 		domutil.StripAttributes(e.Element)
+		dom.RemoveNodes(dom.GetAllNodesWithTag(e.Element, "script", "style"), nil)
 		dom.AppendChild(embed, e.Element)
 	}
 
